@@ -141,7 +141,7 @@ one (int pi, int ci, int ni, int fill, int do_hash)
   unsigned char rb[257], rb2[257];
   char sig[160];
   for (int i = 0; i < 257; i++)
-    rb[i] = fill == 0 ? vh_fillP ((size_t) i) : fill == 1 ? 0 : 0xff;
+    rb[i] = fill == 0 ? vh_fillP ((size_t) i) : fill == 1 ? 0 : fill == 2 ? 0xff : fill < 259 ? (unsigned char) (fill - 3) : (unsigned char) ((fill - 259) + 41 * i);
   /* same random bytes, different memory after them: the result is a function of the nrbytes bytes only */
   for (int i = 0; i < 257; i++)
     rb2[i] = i < nrb ? rb[i] : (unsigned char) ~rb[i];
@@ -313,6 +313,35 @@ main (int argc, char **argv)
                 goto out;
               one (pi, ci, ni, f, dh);
             }
+    }
+  /* byte-value sweep: every value of the random bytes (constant fills put each 6-bit value at each salt position of the
+     3-byte/4-character and byte-per-character encodings; the stepped fills mix them), cheapest hashable count, 64 bytes,
+     every generated setting hashed */
+  for (int pi = 0; pi <= M_COUNT && pi < NPREF; pi++)
+    {
+      int m = pref_method[pi], ci = -1;
+      for (int c = 0; c < ncounts[m] && ci < 0; c++)
+        if (counts[m][c].hash_quick && (counts[m][c].c != 0 || m == M_NT || m == M_DES || m == M_BIG || m == M_MD5))
+          ci = c;
+      if (ci < 0)
+        for (int c = 0; c < ncounts[m] && ci < 0; c++)
+          if (counts[m][c].hash_quick)
+            ci = c;
+      if (ci < 0)
+        continue;
+      int ni64 = 0;
+      for (int ni = 0; ni < NNRB; ni++)
+        if (nrb_list[ni] == 64)
+          ni64 = ni;
+      for (int f = 3; f < 3 + 256 + (vh_thorough ? 256 : 64); f++, idx++)
+        {
+          if (!vh_mine (idx))
+            continue;
+          if (vh_expired ())
+            goto out;
+          one (pi, ci, ni64, f, 1);
+          vh_stat ("byte_value_sweep", 1);
+        }
     }
 out:
   vh_done ();
